@@ -534,7 +534,7 @@ func TestRegress_C16_total(t *testing.T) {
 	}
 }
 
-const rmRule = "load phase (distinct keys, fan-out in {2..8,10,16,32}) followed by a removal phase in a generated order that includes the index keys of nodes (nodes empty, siblings merge, levels collapse); no insertion after the first removal and queries only at keys that are present, which is the part of the behaviour the listed finding C16-remove-index-key does not touch; oracle after every removal: total, Get / PrefixSum / SplitAcc at every present key, SubsetAccumulation between present keys and ordered iteration equal the sorted map; non-trivial = a removal emptied a node; distinct by (fan-out, keys, order) hash"
+const rmRule = "load phase (distinct keys - two-byte arithmetic progressions, or word families over a 2-3 letter alphabet in which keys are proper prefixes of one another, loaded ascending or in a generated order; fan-out in {2..8,10,16,32}) followed by a removal phase in a generated order that includes the index keys of nodes (nodes empty, siblings merge, levels collapse); no insertion after the first removal and queries only at keys that are present, which is the part of the behaviour the listed finding C16-remove-index-key does not touch; oracle after every removal: total, Get / PrefixSum / SplitAcc at every present key, SubsetAccumulation between present keys and ordered iteration equal the sorted map; non-trivial = a removal emptied a node; distinct by (fan-out, keys, order) hash"
 
 // TestPropSumtreeRemovals covers what TestPropSumtree steers around while C16-remove-index-key is listed: removals of
 // index keys. After such a removal the tree routes ABSENT keys wrongly (the listed finding); sums over PRESENT keys must
@@ -549,15 +549,48 @@ func TestPropSumtreeRemovals(t *testing.T) {
 		stride := 2*rapid.IntRange(0, 400).Draw(rt, "stride") + 1
 		start := rapid.IntRange(0, 65535).Draw(rt, "start")
 		var keys []string
-		for i := 0; i < n; i++ {
-			x := (start + i*stride) % 65536
-			k := []byte{byte(x >> 8), byte(x)}
+		load := func(k []byte) {
 			v := big.NewInt(rapid.Int64Range(-1000, 1_000_000).Draw(rt, "v"))
 			tree.Set(k, toInt(v))
 			if _, dup := md.m[string(k)]; !dup {
 				keys = append(keys, string(k))
 			}
 			md.m[string(k)] = v
+		}
+		if rapid.Bool().Draw(rt, "prefixFamilyKeys") {
+			// variable-length keys that are prefixes of one another (all words over a two- or three-letter alphabet up to a
+			// length): node keys then are proper prefixes of their right neighbours' keys
+			alpha := []byte("ab")
+			if rapid.Bool().Draw(rt, "threeLetters") {
+				alpha = []byte("abc")
+			}
+			var words [][]byte
+			var grow func(prefix []byte, depth int)
+			grow = func(prefix []byte, depth int) {
+				if depth == 0 || len(words) >= n {
+					return
+				}
+				for _, ch := range alpha {
+					w := append(append([]byte{}, prefix...), ch)
+					words = append(words, w)
+					grow(w, depth-1)
+				}
+			}
+			grow(nil, rapid.IntRange(2, 6).Draw(rt, "maxLen"))
+			if rapid.Bool().Draw(rt, "ascendingLoad") {
+				sort.Slice(words, func(i, j int) bool { return bytes.Compare(words[i], words[j]) < 0 })
+			} else {
+				words = rapid.Permutation(words).Draw(rt, "loadOrder")
+			}
+			for _, w := range words {
+				load(w)
+			}
+			c.Class("prefix-family-keys")
+		} else {
+			for i := 0; i < n; i++ {
+				x := (start + i*stride) % 65536
+				load([]byte{byte(x >> 8), byte(x)})
+			}
 		}
 		nodesBefore := func() int {
 			lv, err := audit(store)
